@@ -276,6 +276,12 @@ let model_bad = ref 0
 
 let split_ws s = Array.of_list (List.filter (fun x -> x <> "") (String.split_on_char ' ' s))
 
+let hist_t0 = ref 0.0
+let hist_name = ref ""
+let slow_note () =
+  let dt = Sys.time () -. !hist_t0 in
+  if dt > 2.0 && !hist_name <> "" then Printf.printf "SLOW history=%s cpu_s=%.1f\n%!" !hist_name dt
+
 let replay_file (path : string) =
   let ic = open_in path in
   let h = { f = None; id = ""; step = 0; ok = true; last_img = ""; check_img = true; tree = None; slots = Hashtbl.create 8; refused = "" } in
@@ -305,18 +311,31 @@ let replay_file (path : string) =
              | _ -> report "open" "model cannot reopen a fresh image"; f0)
           else f0 in
         h.f <- Some f0;
+        h.last_img <- hex_of_img f0;
         Hashtbl.reset h.slots;
         h.tree <- (if !spec_mode then Some empty_tree else None)
       | 'B' ->
-        (* B <id> <maxbuf> <nhandles> p|s <hex image> : start from a given image *)
+        (* B <id> <maxbuf> <nhandles> p|s <impl open result> <hex image> : start from a given byte string *)
         let t = split_ws line in
         incr histories;
-        h.id <- t.(1); h.step <- 0; h.ok <- true; h.last_img <- "";
-        h.check_img <- true;
-        (match open_model (t.(4) = "s") (dec_hex t.(5)) with
-         | Ok s -> h.f <- Some { cs = s; hs = (init_fstate V3 N0 (n_of_dec t.(3))).hs; maxbuf = n_of_dec t.(2) }
-         | r -> h.f <- None; h.ok <- false;
-                Printf.printf "NOTE history=%s model rejects the start image (%s)\n" h.id (enc_res (match r with Err k -> Err k | Panic p -> Panic p | OutOfFuel -> OutOfFuel | Ok _ -> Ok VUnit)))
+        slow_note (); hist_t0 := Sys.time (); hist_name := t.(1);
+        if Sys.getenv_opt "DRIVER_VERBOSE" <> None then Printf.printf "START %s\n%!" t.(1);
+        h.id <- t.(1); h.step <- 0; h.ok <- true; h.last_img <- t.(6);
+        h.check_img <- true; h.tree <- None; Hashtbl.reset h.slots;
+        let impl = t.(5) in
+        let bytes = dec_hex t.(6) in
+        let r = open_model (t.(4) = "s") bytes in
+        let mine = (match r with Ok _ -> "ok" | Err k -> "err:" ^ kind_name k | Panic _ -> "panic" | OutOfFuel -> "outoffuel") in
+        bump ("open:" ^ impl);
+        (match r with Panic _ | OutOfFuel -> incr model_bad | _ -> ());
+        if mine <> impl then begin
+          h.f <- None;
+          report "open" (Printf.sprintf "mode=%s model=%s%s impl=%s len=%d" t.(4) mine
+            (match r with Panic s -> Printf.sprintf "(site %d)" (int_of_n s) | _ -> "") impl (List.length bytes))
+        end else
+          (match r with
+           | Ok s -> h.f <- Some { cs = s; hs = (init_fstate V3 N0 (n_of_dec t.(3))).hs; maxbuf = n_of_dec t.(2) }
+           | _ -> h.f <- None)
       | 'S' when h.ok ->
         (* S <now> <op tokens...> => <result> *)
         (match h.f with
@@ -331,6 +350,7 @@ let replay_file (path : string) =
            let now = n_of_dec t.(0) in
            let opt = Array.sub t 1 (Array.length t - 1) in
            bump ("op:" ^ opt.(0));
+           if Sys.getenv_opt "DRIVER_VERBOSE" <> None then Printf.printf "STEP %d %s\n%!" h.step (String.sub lhs 0 (min 60 (String.length lhs)));
            let o = parse_op opt in
            let (f', r) = step f now o in
            let mine = enc_res r in
